@@ -69,3 +69,41 @@ m("m12e", "C12", "sqllineage/core/metadata/dummy.py",
   "    def __bool__(self):\n        return len(self.metadata) > 0\n",
   "    def __bool__(self):\n        return len(self.metadata) > 0\n\n    def register_session_metadata(self, table, columns) -> None:\n        super().register_session_metadata(table, columns)\n        self.metadata.setdefault(str(table), [c.raw_name for c in columns])\n",
   "registered session columns are also cached into the provider's own metadata dict")
+
+# ---------------------------------------------------------------- C03
+m("m03a", "C03", "sqllineage/core/holders.py",
+  "                    if g.has_node(table) and g.degree[table] == 0:\n",
+  "                    if g.has_node(table) and g.in_degree[table] == 0:\n",
+  "DROP removes a table that still has outgoing lineage")
+m("m03b", "C03", "sqllineage/core/holders.py",
+  "                    for source, target in itertools.product(read, write):\n                        g.add_edge(source, target, type=EdgeType.LINEAGE)\n",
+  "                    for source, target in itertools.product(read, write):\n                        g.add_edge(source, target, type=EdgeType.LINEAGE)\n                    if len(read) > 1:\n                        nx.set_node_attributes(\n                            g, {table: True for table in read}, NodeTag.SOURCE_ONLY\n                        )\n",
+  "source-only tag applied although the statement writes (joins only)")
+m("m03c", "C03", "sqllineage/core/holders.py",
+  "        intermediate_tables -= self.__retrieve_tag_tables(NodeTag.SELFLOOP)\n",
+  "",
+  "self-loop tables no longer subtracted from intermediate")
+m("m03d", "C03", "sqllineage/core/holders.py",
+  "                    for source, target in itertools.product(read, write):\n",
+  "                    for source, target in zip(sorted(read, key=str), itertools.cycle(write)):\n                        if g.has_edge(target, source):\n                            continue\n",
+  "lineage edge skipped when the reverse edge already exists (cycle avoidance)")
+m("m03e", "C03", "sqllineage/core/holders.py",
+  "                    g.remove_edge(table_new, table_new)\n                    if g.degree[table_new] == 0:\n",
+  "                    g.remove_edge(table_new, table_new)\n                    if g.degree[table_new] <= 1:\n",
+  "RENAME drops the renamed table when it has a single lineage edge")
+m("m03f", "C03", "sqllineage/core/holders.py",
+  "                    if g.has_node(table) and g.degree[table] == 0:\n",
+  "                    if g.has_node(table) and g.out_degree[table] == 0:\n",
+  "DROP removes a pure target although lineage was wired to it")
+m("m03g", "C03", "sqllineage/core/holders.py",
+  "                elif len(read) == 0 and len(write) > 0:\n",
+  "                elif len(read) == 0 and len(write) > 0 and not any(g.degree[t] for t in write):\n",
+  "target-only tag skipped when the table is already wired")
+m("m03h", "C03", "sqllineage/core/holders.py",
+  "        source_tables |= self._selfloop_tables\n",
+  "        source_tables |= {t for t in self._selfloop_tables if self.table_lineage_graph.in_degree[t] == 1}\n",
+  "self-loop table with another incoming edge no longer counted as source")
+m("m03i", "C03", "sqllineage/core/holders.py",
+  "                if len(read) > 0 and len(write) == 0:\n",
+  "                if len(read) > 0 and len(write) == 0 and not any(g.in_degree[t] for t in read):\n",
+  "source-only tag skipped for a table that already has incoming lineage")
